@@ -629,30 +629,38 @@ class NamespaceFlattener(object):
         self.cache = cache
 
     def __call__(self, stream):
-        prefixes = dict([(v, [k]) for k, v in self.prefixes.items()])
-        namespaces = {XML_NAMESPACE.uri: ['xml']}
+        preferred = self.prefixes
         _emit, _get, cache = _prepare_cache(self.cache)
-        def _push_ns(prefix, uri):
-            namespaces.setdefault(uri, []).append(prefix)
-            prefixes.setdefault(prefix, []).append(uri)
-            cache.clear()
-        def _pop_ns(prefix):
-            uris = prefixes.get(prefix)
-            uri = uris.pop()
-            if not uris:
-                del prefixes[prefix]
-            if uri not in uris or uri != uris[-1]:
-                uri_prefixes = namespaces[uri]
-                uri_prefixes.pop()
-                if not uri_prefixes:
-                    del namespaces[uri]
-            cache.clear()
-            return uri
 
-        ns_attrs = []
-        _push_ns_attr = ns_attrs.append
-        def _make_ns_attr(prefix, uri):
-            return 'xmlns%s' % (prefix and ':%s' % prefix or ''), uri
+        # The namespace declarations in scope at the current position of the
+        # output, innermost last, as ``(prefix, uri, auto)`` tuples; `auto`
+        # is false for declarations requested by a `START_NS` event. Every
+        # declaration but the first belongs to the start tag of an open
+        # element and goes out of scope with that element.
+        bindings = [('xml', XML_NAMESPACE.uri, False)]
+        # declarations requested by `START_NS` events for the next start tag
+        pending = []
+        # the flattened name and the number of declarations of every open
+        # element
+        elems = []
+
+        def _lookup(prefix):
+            for binding in reversed(bindings):
+                if binding[0] == prefix:
+                    return binding
+            if prefix:
+                return prefix, None, False
+            return '', '', False
+
+        def _find_prefix(uri, for_attr=False):
+            # the default namespace if it can be used, else the innermost
+            # prefix that is bound to the URI and not shadowed
+            if not for_attr and _lookup('')[1] == uri:
+                return ''
+            for prefix, bound_uri, _ in reversed(bindings):
+                if bound_uri == uri and (prefix or not for_attr) \
+                        and _lookup(prefix)[1] == uri:
+                    return prefix
 
         def _gen_prefix():
             val = 0
@@ -660,72 +668,103 @@ class NamespaceFlattener(object):
                 val += 1
                 yield 'ns%d' % val
         _prefix_generator = _gen_prefix()
-        _gen_prefix = lambda: next(_prefix_generator)
+
+        def _declare(declared, uri, prefix=None):
+            # add a declaration to the start tag being generated; without a
+            # usable prefix one that is not bound in this scope is made up
+            if prefix is None or [p for p, _ in declared if p == prefix]:
+                prefix = preferred.get(uri)
+                while not prefix or _lookup(prefix)[1] is not None:
+                    prefix = next(_prefix_generator)
+            bindings.append((prefix, uri, True))
+            declared.append((prefix, uri))
+            return prefix
+
+        def _make_ns_attr(prefix, uri):
+            return 'xmlns%s' % (prefix and ':%s' % prefix or ''), uri
 
         for kind, data, pos in stream:
             if kind is TEXT and isinstance(data, Markup):
                 yield kind, data, pos
-                continue
-            output = _get((kind, data))
-            if output is not None:
-                yield kind, output, pos
 
             elif kind is START or kind is EMPTY:
+                output = not pending and _get((kind, data)) or None
+                if output is not None:
+                    if kind is START:
+                        elems.append((output[0], 0))
+                    yield kind, output, pos
+                    continue
+
                 tag, attrs = data
+                declared = []
+                for prefix, uri in pending:
+                    # a default namespace is not needed when the URI already
+                    # has a prefix
+                    if _lookup(prefix)[1] != uri and (
+                            prefix or not uri or _find_prefix(uri) is None):
+                        bindings.append((prefix, uri, False))
+                        declared.append((prefix, uri))
+                del pending[:]
 
                 tagname = tag.localname
                 tagns = tag.namespace
                 if tagns:
-                    if tagns in namespaces:
-                        prefix = namespaces[tagns][-1]
-                        if prefix:
-                            tagname = '%s:%s' % (prefix, tagname)
-                    else:
-                        _push_ns_attr(('xmlns', tagns))
-                        _push_ns('', tagns)
+                    prefix = _find_prefix(tagns)
+                    if prefix is None:
+                        prefix = _declare(declared, tagns, '')
+                    if prefix:
+                        tagname = '%s:%s' % (prefix, tagname)
+                else:
+                    _, uri, auto = _lookup('')
+                    if uri and auto:
+                        # leave a default namespace that was made up for an
+                        # enclosing element
+                        _declare(declared, '', '')
 
                 new_attrs = []
                 for attr, value in attrs:
                     attrname = attr.localname
                     attrns = attr.namespace
                     if attrns:
-                        if attrns not in namespaces:
-                            prefix = _gen_prefix()
-                            _push_ns(prefix, attrns)
-                            _push_ns_attr(('xmlns:%s' % prefix, attrns))
-                        else:
-                            prefix = namespaces[attrns][-1]
-                        if prefix:
-                            attrname = '%s:%s' % (prefix, attrname)
+                        prefix = _find_prefix(attrns, True)
+                        if prefix is None:
+                            prefix = _declare(declared, attrns)
+                        attrname = '%s:%s' % (prefix, attrname)
                     new_attrs.append((attrname, value))
 
-                data = _emit(kind, data, (tagname, Attrs(ns_attrs + new_attrs)))
-                yield kind, data, pos
-                del ns_attrs[:]
+                ns_attrs = [_make_ns_attr(*decl) for decl in declared]
+                output = tagname, Attrs(ns_attrs + new_attrs)
+                if not declared:
+                    _emit(kind, data, output)
+                elif kind is START:
+                    cache.clear()
+                else:
+                    del bindings[-len(declared):]
+                if kind is START:
+                    elems.append((tagname, len(declared)))
+                yield kind, output, pos
 
             elif kind is END:
-                tagname = data.localname
-                tagns = data.namespace
-                if tagns:
-                    prefix = namespaces[tagns][-1]
+                if elems:
+                    tagname, count = elems.pop()
+                    if count:
+                        del bindings[-count:]
+                        cache.clear()
+                else:
+                    tagname = data.localname
+                    prefix = data.namespace and _find_prefix(data.namespace)
                     if prefix:
                         tagname = '%s:%s' % (prefix, tagname)
-                yield kind, _emit(kind, data, tagname), pos
+                yield kind, tagname, pos
 
             elif kind is START_NS:
                 prefix, uri = data
-                if uri not in namespaces:
-                    prefix = prefixes.get(uri, [prefix])[-1]
-                    _push_ns_attr(_make_ns_attr(prefix, uri))
-                _push_ns(prefix, uri)
+                pending[:] = [decl for decl in pending if decl[0] != prefix]
+                pending.append((prefix, uri))
 
             elif kind is END_NS:
-                if data in prefixes:
-                    uri = _pop_ns(data)
-                    if ns_attrs:
-                        attr = _make_ns_attr(data, uri)
-                        if attr in ns_attrs:
-                            ns_attrs.remove(attr)
+                # only matters when no start tag took the declaration
+                pending[:] = [decl for decl in pending if decl[0] != data]
 
             else:
                 yield kind, data, pos
